@@ -168,6 +168,16 @@ impl Stream for CodecStream {
     fn exec(&mut self, op: &str, out: &mut Out) -> String {
         let t: Vec<&str> = op.split(' ').collect();
         match t.as_slice() {
+            // decx <variant> <hex>: `dec`, plus the expectation that the message is a response of that
+            // variant (an optional field was left out of a message that decoded to it)
+            ["decx", want, h] => {
+                let r = self.exec(&format!("dec {h}"), out);
+                let got = r.split(" r ").nth(1).and_then(|x| x.split(' ').next()).unwrap_or("-").to_string();
+                if got != *want {
+                    out.violation("C10", "optional-field-changes-variant", format!("a `{want}` response without its optional `nodes` field decodes as `{got}`: {}", &r[..r.len().min(160)]));
+                }
+                r
+            }
             ["dec", h] => {
                 let bytes = unhex(h);
                 let r = guarded(|| Msg::from_bytes(&bytes));
@@ -241,6 +251,26 @@ impl Stream for CodecStream {
                     }
                 }
                 format!("ok {} | {}", rendered, hex(&re))
+            }
+            // typed round trip at the boundaries of the integer fields: signed announce timestamp (u64),
+            // mutable seq / cas (i64)
+            ["encint", t, seq, cas] => {
+                let t: u64 = t.parse().expect("t");
+                let seq: i64 = seq.parse().expect("seq");
+                let cas: Option<i64> = if *cas == "none" { None } else { Some(cas.parse().expect("cas")) };
+                let id = |b: u8| Id::from_bytes([b; 20]).expect("id");
+                let m1 = Msg::new(7, None, None, MessageType::Request(dht::RequestSpecific { requester_id: id(1), request_type: RequestTypeSpecific::Put(PutRequest { token: vec![9].into(), put_request_type: PutRequestSpecific::AnnounceSignedPeer(AnnounceSignedPeerRequestArguments { info_hash: id(2), t, k: [3; 32], sig: [4; 64] }) }) }), false);
+                let m2 = Msg::new(7, None, None, MessageType::Request(dht::RequestSpecific { requester_id: id(1), request_type: RequestTypeSpecific::Put(PutRequest { token: vec![9].into(), put_request_type: PutRequestSpecific::PutMutable(PutMutableRequestArguments { target: id(2), v: vec![1].into(), k: [3; 32], seq, sig: [4; 64], salt: None, cas }) }) }), false);
+                let mut outs = vec![];
+                for m in [m1, m2] {
+                    let b = m.to_bytes().unwrap_or_default();
+                    match Msg::from_bytes(&b) {
+                        Ok(m2) if render_msg(&m2) == render_msg(&m) => {}
+                        other => out.violation("C10", "integer-roundtrip", format!("`{}` does not survive encode/decode: {:?}", render_msg(&m), other.map(|x| render_msg(&x)))),
+                    }
+                    outs.push(hex(&b));
+                }
+                outs.join(" ")
             }
             // typed encoding of an announce_peer request with each implied_port value
             ["encann", implied, port] => {
@@ -528,12 +558,36 @@ pub fn generate(out: &mut Out, seed: u64, thorough: bool) {
             out.count("gen:typed-announce");
         }
     }
+    for t in [0u64, 1, (1 << 63) - 1, 1 << 63, u64::MAX] {
+        for (seq, cas) in [(0i64, "none".to_string()), (i64::MAX, i64::MIN.to_string()), (i64::MIN, i64::MAX.to_string()), (-1, "0".to_string())] {
+            out.run(&mut st, format!("encint {t} {seq} {cas}"));
+            out.count("gen:typed-integers");
+        }
+    }
     let rounds = if thorough { 12 } else { 2 };
     for round in 0..rounds {
         for (y, name, body) in g.bodies() {
             let env = g.envelope(y, name, body.clone());
             let full = enc(&B::D(env.clone()));
             emit(out, &mut st, &full, "valid");
+            // the optional `nodes` field of a get-type response may be absent without changing what
+            // the response is
+            if y == "r" {
+                if let (Ok(m), B::D(fields)) = (Msg::from_bytes(&full), &body) {
+                    let variant = render_msg(&m).split(" r ").nth(1).and_then(|x| x.split(' ').next().map(|v| v.to_string())).unwrap_or_default();
+                    if variant != "find_node" && fields.iter().any(|f| f.0 == s("nodes")) {
+                        let sub: Vec<(Vec<u8>, B)> = fields.iter().filter(|f| f.0 != s("nodes")).cloned().collect();
+                        let mut env2 = env.clone();
+                        for e in env2.iter_mut() {
+                            if e.0 == s("r") {
+                                e.1 = B::D(sub.clone());
+                            }
+                        }
+                        out.count("gen:optional-nodes-absent");
+                        out.run(&mut st, format!("decx {variant} {}", hexz(&enc(&B::D(env2)))));
+                    }
+                }
+            }
             if round == 0 {
                 out.sample(format!("dec {} ({y} {name})", String::from_utf8_lossy(&full[..full.len().min(60)]).replace(|c: char| !c.is_ascii_graphic(), ".")));
             }
